@@ -67,7 +67,7 @@ def main(tier, seed):
     terms, metas = [], []
     for it in range(n_prog):
         rational = it % 3 == 0
-        prog = progs.gen_prog(rng, ap, nout=rng.choice([1, 1, 2]), rational=rational)
+        prog = progs.gen_prog(rng, ap, nout=rng.choice([1, 1, 2]), rational=rational, traced_pow=not rational)
         N = prog['N']
         rec_kind = rng.choice(['ndarray', 'UTPM'])
         x_rec, rmeta = make_input(ap, rng, N, rec_kind)
